@@ -339,7 +339,9 @@ fn run_case(c: &Case, r: &mut Rng, model: &mut Model) -> Outcome {
                     }
                 }
                 cmds.sort_by_key(|x| x.0);
-                check_env_step(c, &events, &calls, &cmds, &term_before, &sleeping, env_step_no, &sh, &mut tr, model, &mut out);
+                let own_real = sim.env.verif_resource_ownership();
+                let pers_real = sim.env.verif_persistent_processes();
+                check_env_step(c, &events, &calls, &cmds, &term_before, &sleeping, &own_real, &pers_real, env_step_no, &sh, &mut tr, model, &mut out);
             }
         }
     }
@@ -427,6 +429,8 @@ fn check_env_step(
     cmds: &[(u64, usize, Command<E>)],
     term_before: &BTreeSet<ProcessId>,
     sleeping: &BTreeSet<ProcessId>,
+    own_real: &[(ResourceId, ProcessId)],
+    pers_real: &[ProcessId],
     step_no: usize,
     sh: &BShared,
     tr: &mut Tracker,
@@ -499,11 +503,15 @@ fn check_env_step(
                 val_sx(argument)
             )),
             Event::ProcessResults { awaiter, results } => {
-                let mut rs: Vec<(ProcessId, bool)> = results.iter().map(|(p, r)| (*p, r.is_some())).collect();
+                // 0 = None, 1 = Some(Ok(_)), 2 = Some(Err(_))
+                let mut rs: Vec<(ProcessId, u8)> = results
+                    .iter()
+                    .map(|(p, r)| (*p, match r { None => 0, Some(Ok(_)) => 1, Some(Err(_)) => 2 }))
+                    .collect();
                 rs.sort();
                 Some(format!(
                     "results {awaiter} ({})",
-                    rs.iter().map(|(p, b)| format!("({p} {})", if *b { 1 } else { 0 })).collect::<Vec<_>>().join(" ")
+                    rs.iter().map(|(p, b)| format!("({p} {b})")).collect::<Vec<_>>().join(" ")
                 ))
             }
             _ => None,
@@ -529,11 +537,7 @@ fn check_env_step(
             return;
         }
         let f = fields(a);
-        let sleeping_report = l.starts_with("results ") && sleeping.iter().any(|p| l.contains(&format!("({p} 1)")));
-        if f.get("wf").map(|s| s.as_str()) != Some("1") && sleeping_report {
-            // the workers break `livenessOk` here: reported below as close=sleeping-persistent-owner
-            out.counters.push("assumption:livenessOk-broken-by-sleeping-process-report".into());
-        } else if f.get("wf").map(|s| s.as_str()) != Some("1") {
+        if f.get("wf").map(|s| s.as_str()) != Some("1") {
             out.problems.push((
                 "assumption=event-not-well-formed".into(),
                 format!("the model's eventOk is false for `{l}`: a worker emitted an event the theorems' hypotheses exclude (forged handle / action by a finished process / report before termination)"),
@@ -573,6 +577,15 @@ fn check_env_step(
         let open_real = st.open.iter().map(|r| r.to_string()).collect::<Vec<_>>().join(" ");
         if last.get("open").map(|s| s.as_str()) != Some(open_real.as_str()) {
             disagree("registry", format!("{:?}", last.get("open")), open_real, out);
+        }
+        // the ownership map itself (hook `Environment::verif_resource_ownership`)
+        let own_s = own_real.iter().map(|(r, p)| format!("{r}:{p}")).collect::<Vec<_>>().join(" ");
+        if last.get("own").map(|s| s.as_str()) != Some(own_s.as_str()) {
+            disagree("ownership-map", format!("{:?}", last.get("own")), own_s, out);
+        }
+        let pers_s = pers_real.iter().map(|p| p.to_string()).collect::<Vec<_>>().join(" ");
+        if last.get("pers").map(|s| s.as_str()) != Some(pers_s.as_str()) {
+            disagree("persistent-set", format!("{:?}", last.get("pers")), pers_s, out);
         }
         if last.get("next").and_then(|s| s.parse::<usize>().ok()) != Some(st.next) {
             disagree("next-id", format!("{:?}", last.get("next")), st.next.to_string(), out);
@@ -774,24 +787,29 @@ fn check_env_step(
                 }
             }
             Event::ProcessResults { results, .. } => {
-                let reported: BTreeSet<ProcessId> = results.iter().filter(|(_, r)| r.is_some()).map(|(p, _)| *p).collect();
+                // every `Some(result)` entry ...
+                let reported_all: BTreeSet<ProcessId> = results.iter().filter(|(_, r)| r.is_some()).map(|(p, _)| *p).collect();
+                // ... of which the dead ones: a persistent process that sleeps between two lines is alive
+                // (worker-side truth, independent of the environment's own bookkeeping)
+                let reported: BTreeSet<ProcessId> = reported_all.iter().copied().filter(|p| !sleeping.contains(p)).collect();
                 // the closes of this event: the following close_resource calls the oracle attributes
                 // to a process reported in this message (anything else is left over and flagged below)
                 let mut mine: Vec<(ResourceId, bool)> = vec![];
                 while let Some(Call::Close { rid, effective }) = calls.get(ci) {
                     match tr.owner.get(rid) {
-                        Some(o) if reported.contains(o) => {
+                        Some(o) if reported_all.contains(o) => {
                             mine.push((*rid, *effective));
                             ci += 1;
                         }
                         _ => break,
                     }
                 }
+                for p in reported_all.difference(&reported) {
+                    out.counters.push(format!("report:sleeping-persistent-process-{p}"));
+                }
                 for p in &reported {
                     tr.reported.entry(*p).or_insert(step_no);
-                    if sleeping.contains(p) {
-                        out.counters.push("report:sleeping-persistent-process".into());
-                    } else if !term_before.contains(p) {
+                    if !term_before.contains(p) {
                         out.problems.push((
                             "report=before-termination".into(),
                             format!("process {p} reported complete but it had not terminated before this environment step"),
@@ -870,6 +888,16 @@ fn check_env_step(
             _ => {}
         }
         ci += 1;
+    }
+    // the environment's map must be the ownership the property describes (creator, then the last
+    // recipient; dropped when the owner's termination is reported)
+    let spec: Vec<(ResourceId, ProcessId)> = tr.owner.iter().map(|(r, p)| (*r, *p)).collect();
+    if spec != own_real {
+        out.problems.push((
+            "ownership=map-differs-from-property".into(),
+            format!("after env step {step_no}: resource_ownership = {own_real:?}, ownership per the property = {spec:?}"),
+            true,
+        ));
     }
     for (rid, n) in &tr.effective_closes {
         if *n > 1 {
